@@ -289,8 +289,9 @@ def summarise(ctx, b, flavour, inline=()):
                 continue
             if f[0] == "discr" and tag(f[1]) == "call" and isinstance(f[1][1], str) and f[1][1].endswith("checked_sub"):
                 continue    # carried by the comparison it implies (sym.implied_facts): Some <=> b <= a
-            if f[0] == "discr" and tag(f[1]) == "vsum" and len(f[1]) > 3 and f[1][3][0] == "from":
-                continue    # a test of a value joined from variant constructions: carried by the guards of the constructing edges (sym._flag_phi_guards)
+            if f[0] == "discr" and tag(f[1]) == "vsum" and len(f[1]) > 3 and f[1][3][0] in ("from", "maps", "and"):
+                continue    # a test of a value joined from variant constructions / decided by other values: carried by the guards of the constructing edges
+                            # (sym._flag_phi_guards) or by the tests of those values (dnf._rewrite_guard, _expand_and_guards)
             if f[0] == "discr" and tag(f[1]) == "tryfrom":
                 continue    # Ok <=> the value fits the target type: carried by the two comparisons (Err is expanded into its two cases by dnf.guard_dnf_pairs)
             if f[0] == "discr" and tag(f[1]) == "variant":
